@@ -507,7 +507,8 @@ func (tdsChan *Channel) SendPackage(ctx context.Context, pkg Package) error {
 }
 
 func (tdsChan *Channel) sendPackets(ctx context.Context, onlyFull bool) error {
-	defer tdsChan.queueTx.DiscardUntilCurrentPosition()
+	sent := 0
+	defer func() { tdsChan.queueTx.discardSent(sent) }()
 
 	for i, packet := range tdsChan.queueTx.queue {
 		select {
@@ -516,18 +517,21 @@ func (tdsChan *Channel) sendPackets(ctx context.Context, onlyFull bool) error {
 		case <-tdsChan.tdsConn.ctx.Done():
 			return fmt.Errorf("connection context is closed: %w", tdsChan.tdsConn.ctx.Err())
 		default:
-			// Only the last packet should not be full.
-			if i == tdsChan.queueTx.indexPacket && tdsChan.queueTx.indexData < tdsChan.tdsConn.PacketBodySize() {
+			// The packet being written to is the last packet of the
+			// message once the remaining packets are sent. It is held
+			// back until then even if it is full - otherwise a message
+			// whose length is a multiple of the packet body size would
+			// end without a packet carrying the EOM status.
+			if i == tdsChan.queueTx.indexPacket {
 				if onlyFull {
-					// Packet is not exhausted and only exhausted packets
-					// should be sent. Return.
 					return nil
 				}
 
-				// Packet is not exhausted but should be sent. Adjust header
-				// length
+				// Adjust header length to the written data and mark the
+				// packet as the last of the message.
 				packet.Header.Length = uint16(PacketHeaderSize + tdsChan.queueTx.indexData)
 				packet.Data = packet.Data[:tdsChan.queueTx.indexData]
+				packet.Header.Status |= TDS_BUFSTAT_EOM
 			}
 
 			// TODO maybe check if data is empty - could be an issue
@@ -535,6 +539,7 @@ func (tdsChan *Channel) sendPackets(ctx context.Context, onlyFull bool) error {
 			if err := tdsChan.sendPacket(packet); err != nil {
 				return fmt.Errorf("error sending packet %s: %w", packet, err)
 			}
+			sent++
 		}
 	}
 
